@@ -1,5 +1,5 @@
 """C05 — several types in one file: order-independent, idempotent, lossless merge."""
-import itertools, json, os
+import posixpath, itertools, json, os
 import vlib
 
 NOTE = None
@@ -88,6 +88,53 @@ def final_file(res):
     return None
 
 
+def public_entry_points(ctx):
+    """the shared file of the compiled universe, written through `export` / `export_all` / `export_all_to` in every order, with the default
+    directory relative, absolute, and the file spelled with a `..` detour in one `export_to`: every declaration exactly once in the end"""
+    from props import uni, tsparse
+    binary = uni.build(ctx)
+    if binary is None:
+        return
+    root = os.path.join(vlib.SCRATCH, "c05", "u")
+    total = orders = 0
+    for env in (None, "$ROOT/abs/out", "rel/out/../out"):
+        types, dod = uni.describe(binary, root, env)
+        sharers = [i for i, t in enumerate(types) if t["output_path"] and posixpath.normpath(t["output_path"]) == "shared.ts"]
+        names = [types[i]["name"] for i in sharers]
+        hists, metas = [], []
+        for _ in range(6 if ctx.quick else 40):
+            order = ctx.rng.sample(sharers, len(sharers))
+            ks = [ctx.rng.choice(["export", "export_all", "export_all_to"]) for _ in order]
+            steps = [{"k": k, "t": t, **({"dir": dod} if k == "export_all_to" else {})} for k, t in zip(ks, order)]
+            h = {"op": "uhist", "root": root, "steps": steps}
+            if env is not None:
+                h["env"] = env
+            hists.append(h)
+            metas.append([f"{k}({types[t]['name']})" for k, t in zip(ks, order)])
+        real, model, dis = uni.run_both(ctx, binary, types, hists, f"shared file through the public entry points env={env}")
+        total += len(hists)
+        orders += len({tuple(m) for m in metas})
+        for h, m, r in zip(hists, metas, real):
+            shared = [node.get("file") for rel, node in r["tree"] if rel.endswith("/shared.ts") or rel == "shared.ts"]
+            probs = []
+            if any(s != "ok" for s in r["steps"]):
+                probs.append(f"steps {r['steps']}")
+            if len(shared) != 1 or shared[0] is None:
+                probs.append(f"{len(shared)} files named shared.ts")
+            else:
+                decl = [d[0] for d in tsparse.parse_file(shared[0])["decls"]]
+                if sorted(decl) != sorted(names):
+                    probs.append(f"shared.ts declares {decl}, exported {sorted(names)}")
+            if probs:
+                ctx.violation("a declaration exported into a shared file is lost or duplicated: " + "; ".join(probs),
+                              {"universe_history": h, "order": m, "env": env}, {"shared.ts": shared[:1], "step_results": r["steps"]})
+                break
+    ctx.stream("shared file through the public entry points", total, orders,
+               "the five types of the compiled universe that share `shared.ts` (one spelled `dots/../shared.ts`) exported in random orders through export / export_all / "
+               "export_all_to, default directory unset / absolute / relative with `..`; oracle: exactly one shared.ts holding every declaration once; model = implementation",
+               [], {})
+
+
 def run(ctx):
     global NOTE
     proof = vlib.lean_check(ctx)
@@ -130,6 +177,7 @@ def run(ctx):
                "unicode blocks; overlapping and disjoint import sets; stale initial file every second set) x all permutations (<=24/120) with interleaved re-exports; "
                "plus the same with one block outside WFBlock (blank line in a block doc, `export type` inside a field doc); non-trivial = distinct orders",
                [{"steps": [s.get("name", s["k"]) for s in hs[0]["steps"]]}], {})
+    public_entry_points(ctx)
     # merge() alone on malformed inputs (panic behaviour must correspond too)
     mal = ["", "x", NOTE, NOTE + "\n", NOTE + "\nexport type A = 1;\n", NOTE + "garbage line\n\nexport type A = 1;\n", NOTE + "\n\n\n",
            NOTE + "\n   \n", NOTE + 'import type { A } from "./A";\n\n/** */\n', NOTE + "\nexport type \n", NOTE + "\n\n\nexport type B = 2;\n\n\n\nexport type C = 3;\n"]
